@@ -1,6 +1,7 @@
 package props
 
 import (
+	"bytes"
 	"context"
 	"fmt"
 	"runtime/debug"
@@ -518,3 +519,24 @@ func TestC03_Exhaustive(t *testing.T) {
 }
 
 var _ = rapid.Bool
+
+// DeepConvertCase: n nested structs (field header 0c 00 01 repeated n times, nothing behind them) given
+// to ConvertUnknownFields. This is the recorded open finding F2: the converter recurses once per level
+// without any bound, so that the recursion depth is limited only by the size of the input.
+type DeepConvertCase struct {
+	Depth int `json:"depth"`
+}
+
+func checkDeepConvert(c DeepConvertCase, cv *cov) *evid.Violation {
+	if c.Depth < 1 || c.Depth > 1<<23 {
+		return nil
+	}
+	in := bytes.Repeat([]byte{0x0c, 0x00, 0x01}, c.Depth)
+	_, err := uf.ConvertUnknownFields(in) // with the default stack limit of 1 GB about 2 million levels end the process
+	if err == nil {
+		return evid.Failf("ConvertUnknownFields accepted %d unterminated nested structs", c.Depth)
+	}
+	return nil
+}
+
+func init() { register("c03_deep_convert", checkDeepConvert) }
